@@ -541,11 +541,20 @@ class Simulation:
 
             if scaled:
                 fluxes = [i.copy() for i in fluxes]
-                for v, p in zip(fluxes, self.raw_parameters, strict=True):
+                for v, res, p in zip(
+                    fluxes, self.raw_variables, self.raw_parameters, strict=True
+                ):
                     self.model.update_parameters(p)
-                    stoichs = self.model.get_stoichiometries_of_variable(variable)
+                    # a computed coefficient can depend on the state and the time:
+                    # every row is scaled by the coefficients at that row
+                    stoichs = [
+                        self.model.get_stoichiometries_of_variable(
+                            variable, variables=row.to_dict(), time=t
+                        )
+                        for t, row in res.iterrows()
+                    ]
                     for k in names:
-                        v.loc[:, k] *= stoichs[k]
+                        v.loc[:, k] *= [i[k] for i in stoichs]
 
         if concatenated:
             return pd.concat(fluxes, axis=0)
@@ -607,11 +616,20 @@ class Simulation:
 
             if scaled:
                 fluxes = [i.copy() for i in fluxes]
-                for v, p in zip(fluxes, self.raw_parameters, strict=True):
+                for v, res, p in zip(
+                    fluxes, self.raw_variables, self.raw_parameters, strict=True
+                ):
                     self.model.update_parameters(p)
-                    stoichs = self.model.get_stoichiometries_of_variable(variable)
+                    # a computed coefficient can depend on the state and the time:
+                    # every row is scaled by the coefficients at that row
+                    stoichs = [
+                        self.model.get_stoichiometries_of_variable(
+                            variable, variables=row.to_dict(), time=t
+                        )
+                        for t, row in res.iterrows()
+                    ]
                     for k in names:
-                        v.loc[:, k] *= -stoichs[k]
+                        v.loc[:, k] *= [-i[k] for i in stoichs]
 
         if concatenated:
             return pd.concat(fluxes, axis=0)
